@@ -500,6 +500,19 @@ def junk_lines(chk, quick):
             for tag in ("a", "b"):
                 lines.append(junk_one("custom_member_name_%r_%s" % (name[:6], tag), dict(ident, **{name: "v"}), v, False))
                 lines.append(junk_one("custom_member_name_%r_strict_%s" % (name[:6], tag), dict(ident, **{name: "v"}), v, True))
+    # registered extensions (toplevel and property extensions) whose content claims another extension type, or carries the other kind's members
+    c = custom_types()
+    g21 = schema.Gen("2.1", rng)
+    ident21 = g21.instance("objects:identity", "min")
+    for ext_id, members in (("extension-definition--aaaaaaaa-1111-4111-8111-111111111111", {"rank": 1}), ("extension-definition--cccccccc-1111-4111-8111-111111111111", {"depth": 1})):
+        for et in ("property-extension", "toplevel-property-extension", "new-sdo", "new-sco", "new-sro", "", None, 5, ["toplevel-property-extension"]):
+            for where in ("inside", "toplevel"):
+                ext = dict(members) if where == "inside" else {}
+                if et is not None:
+                    ext["extension_type"] = et
+                d = dict(ident21, extensions={ext_id: ext}, **(members if where == "toplevel" else {}))
+                for strict in (True, False):
+                    lines.append(junk_one("registered_extension_claims_%r_%s_%s" % (et, where, ext_id[22:23]), d, "2.1", strict))
     # deep nesting (termination)
     for depth in (200, 400):          # 400/800 JSON nesting levels: still decodable by this interpreter's json module
         deep = "x"
